@@ -65,6 +65,8 @@ class AbsInt:
         if k in ('CaseStmt', 'DefaultStmt', 'LabelStmt'):
             ks = F.kids(stmt)
             return self.run(ks[0], env) if ks else {'fall'}
+        if k in ('ForStmt', 'WhileStmt', 'DoStmt') and any(is_error_call(x) is not None for x in F.walk(stmt)):
+            raise F.AnalysisBroken('a loop with an error exit is not modelled by this evaluator (line %s)' % stmt.get('l'))
         err = None
         for x in F.walk(stmt):
             e = is_error_call(x)
